@@ -35,7 +35,7 @@ fills = st.sampled_from([0.0, 1.0, -2.0, 5.5])
 
 @st.composite
 def simple_family(draw, max_calls=3, with_metrics=None):
-    axes = draw(gen.layouts(max_axes=3, max_n=4, max_cells=90, allow_default_shifts=False))
+    axes = draw(gen.layouts(max_axes=3, max_n=4, max_cells=90, allow_default_shifts=draw(st.booleans())))
     if all(len(a["positions"]) == 1 for a in axes):
         axes[0]["positions"].append(draw(st.sampled_from(gen.OTHER_POS)))
     names = [a["name"] for a in axes]
@@ -77,6 +77,9 @@ def simple_family(draw, max_calls=3, with_metrics=None):
                            "name": draw(st.sampled_from(["PHI", None])), "_pos": pos}
     gb = _spell(draw, st.sampled_from(RULES), names)
     grid = {"coords": gcoords, "periodic": draw(st.booleans()), "boundary": gb, "fill_value": _spell(draw, fills, names), "metrics": metrics or None}
+    shifts = {a["name"]: dict(a["default_shifts"]) for a in axes if a.get("default_shifts")}
+    if shifts:
+        grid["default_shifts"] = shifts
     calls = []
     for _ in range(draw(st.integers(1, max_calls))):
         aname = draw(st.sampled_from(sorted(arrays)))
@@ -115,6 +118,39 @@ def simple_family(draw, max_calls=3, with_metrics=None):
     for a in arrays.values():
         a.pop("_pos")
     return {"family": "simple", "dims": dims, "coords": coords, "vars": vars_, "grid": grid, "arrays": arrays, "calls": calls}
+
+
+@st.composite
+def default_shift_family(draw):
+    """Grid-level default_shifts naming every axis; calls that leave `to` to them."""
+    k = draw(st.integers(1, 2))
+    axes = []
+    for i in range(k):
+        others = draw(st.lists(st.sampled_from(gen.OTHER_POS), min_size=2, max_size=3, unique=True))
+        positions = ["center"] + [p for p in gen.OTHER_POS if p in others]
+        shifts = {"center": draw(st.sampled_from(positions[1:]))}
+        axes.append({"name": gen.AXIS_NAMES[i], "n": draw(st.integers(2, 4)), "positions": positions, "default_shifts": shifts})
+    dims, coords, gcoords = {}, {}, {}
+    for a in axes:
+        gcoords[a["name"]] = {}
+        for p in a["positions"]:
+            d = dtok(a["name"], p)
+            dims[d] = gen.pos_len(a["n"], p)
+            coords[d] = {"values": None, "attrs": {}}
+            gcoords[a["name"]][p] = d
+    names = [a["name"] for a in axes]
+    dl = draw(gen.permutations_of([dtok(n, "center") for n in names]))
+    arrays = {"A0": {"dims": dl, "values": draw(gen.data_values([dims[d] for d in dl], elements=ints)), "name": draw(st.sampled_from(["PHI", None]))}}
+    grid = {"coords": gcoords, "periodic": draw(st.booleans()), "boundary": _spell(draw, st.sampled_from(RULES), names),
+            "fill_value": _spell(draw, fills, names), "metrics": None, "default_shifts": {a["name"]: dict(a["default_shifts"]) for a in axes}}
+    calls = []
+    for _ in range(draw(st.integers(1, 2))):
+        op_axes = draw(st.lists(st.sampled_from(names), min_size=1, max_size=len(names), unique=True))
+        calls.append({"fn": draw(st.sampled_from(OPS + ["cumsum"])), "da": "A0", "axis": op_axes if len(op_axes) > 1 or draw(st.booleans()) else op_axes[0],
+                      "axis_spelling": draw(st.sampled_from(["list", "tuple"])), "to": None,
+                      "boundary": _spell(draw, st.sampled_from(RULES), names), "fill_value": _spell(draw, fills, names)})
+    calls.append({"fn": "axes"})
+    return {"family": "default-shifts", "dims": dims, "coords": coords, "vars": {}, "grid": grid, "arrays": arrays, "calls": calls}
 
 
 @st.composite
@@ -435,7 +471,7 @@ def metric_batch_family(draw):
 
 def any_family(max_calls=3):
     return st.one_of(simple_family(max_calls), simple_family(max_calls), faces_family(max_calls), ufunc_family(), equiv_family(),
-                     autoparse_family(), metric_partition_family(), metric_batch_family(), transform_family())
+                     autoparse_family(), metric_partition_family(), metric_batch_family(), transform_family(), default_shift_family())
 
 
 def tokens_of(sc):
